@@ -376,7 +376,7 @@ fn oracle(case: &Case, o: &Obs, stats: &mut Vec<&'static str>) -> Result<(), Str
     }
     for (p, s, back) in &o.sc {
         if *p > 0.0 && !(back <= p) {
-            // the signature of the recorded finding C11-f32-unscale is the regime, decided here
+            // the regime of the defect repaired by /repo ee57f0f (known_findings.json `fixed`), named in the message
             let regime = if resolvable { "" } else { "f32-unresolvable-grid (|M*offset|*scale+len >= 2^22): " };
             return Err(format!("{}pvalue(score(p)) > p: p = {:e} ({}), score = {:e} ({}), pvalue(score) = {:e}", regime, p, p.to_bits(), s, s.to_bits(), back));
         }
@@ -474,7 +474,19 @@ fn alt(case: &Case, o: &Obs) -> Result<(), String> {
     }
     // score(p) is unscale(k) of a table index (k may be one past the largest attainable score when p is
     // below min_pvalue(), and below the smallest one when the total mass is below p < 1)
-    let grid: std::collections::HashSet<String> = (0..=o.sf.len() as i32).map(|k| show32(d.unscale(k))).collect();
+    // (since /repo ee57f0f `score` steps unscale(k) up by a few f32 neighbours when f32 cannot resolve the
+    // table: the neighbours just above a grid point count as that grid point)
+    let grid: std::collections::HashSet<String> = (0..=o.sf.len() as i32)
+        .flat_map(|k| {
+            let mut v = d.unscale(k);
+            let mut out = Vec::with_capacity(5);
+            for _ in 0..5 {
+                out.push(show32(v));
+                v = v.next_up();
+            }
+            out
+        })
+        .collect();
     let on_grid = |what: &str, p: f64, s: f32| -> Result<(), String> {
         if !grid.contains(&show32(s)) {
             return Err(format!("{}: {:e} (p = {:e}) is not unscale(k) of a table index", what, s, p));
@@ -818,6 +830,9 @@ pub fn run(cfg: &Cfg) {
         let m = c.m;
         let wild_inf = c.cells.iter().any(|r| r[NK - 1] == NEG_INF_BITS);
         let wild_mass = f32::from_bits(c.bg[NK - 1]) > 0.0;
+        if std::env::var("LMV_TRACE").is_ok() {
+            eprintln!("RUNNING {}", c.line());
+        }
         let (line, ans, o, nt, stats) = exec_case(c);
         out.stat(&format!("width/{}", if m <= 9 { m.to_string() } else { "10+".into() }));
         out.stat(&format!("wildcard/{}{}", if wild_inf { "neginf" } else { "finite" }, if wild_mass { "+mass" } else { "" }));
